@@ -70,6 +70,8 @@ ARet(kind, hasOut, hasErr, nout, nerr, outOk, errOk, t) ==
      /\ contentBad' = (contentBad \/ ~outOk \/ ~errOk)
      /\ viol' = viol
           \cup V(kind # "panic", "C01_panic")
+          \cup V(limit >= 0 => kind # "panic", "C03_limited_read_panics")
+          \cup V(dl # NoTime => kind # "panic", "C04_timed_read_panics")
           \cup V(kind # "panic" => (hasOut = ("out" \in piped) /\ hasErr = ("err" \in piped)), "C02_absent_iff_not_piped")
           \cup V(outOk /\ errOk, "C02_out_exact")
           \cup V(dl # NoTime => outOk /\ errOk, "C04_no_output_lost_or_repeated_across_resumed_reads")
